@@ -57,6 +57,13 @@ func init() {
 		},
 
 		"math/rand.NewSource":           extRandNewSource,
+		modPath + "/varutil/idutil.initValues": func(fr *frame, a []value) value {
+			ob := make([]value, 32)
+			for i := range ob {
+				ob[i] = uint8(i + 1)
+			}
+			return tuple{"0123456789abcdef0123456789abcdef", ob, "corrhost"}
+		},
 		"(*math/rand.rngSource).Int63":  extRandInt63,
 		"(*math/rand.rngSource).Uint64": extRandInt63,
 		"(*math/rand.rngSource).Seed":   func(fr *frame, a []value) value { return nil },
@@ -87,6 +94,11 @@ func (p *Path) freshRand(label string, w int) *Term {
 
 func extRandInt63(fr *frame, a []value) value {
 	p := fr.p
+	if !p.symRand {
+		// deterministic pseudo-random stream (formatting ids is not the subject)
+		p.randState = p.randState*6364136223846793005 + 1442695040888963407
+		return int64(p.randState >> 1)
+	}
 	v := p.freshRand("rand63", 64)
 	p.assume(p.tt.Cmp(OpUlt, v, p.tt.BV(1<<63, 64)))
 	return fromTerm(v, types.Typ[types.Int64])
